@@ -146,7 +146,7 @@ func c17TypeID(t string) types.TypeID {
 var c17Log *recovery.LogManager
 
 func newC17(p c17Params) *c17Inst {
-	in := &c17Inst{p: p, keys: c17Keys(p), rids: []page.RID{{PageID: 1, SlotNum: 0}, {PageID: 1, SlotNum: 1}, {PageID: 70000, SlotNum: 513}}}
+	in := &c17Inst{p: p, keys: c17Keys(p), rids: []page.RID{{PageID: 1, SlotNum: 0}, {PageID: 65537, SlotNum: 0}, {PageID: 70000, SlotNum: 513}}}
 	if c17Log == nil {
 		dm := disk.NewVirtualDiskManagerImpl("c17log.db")
 		c17Log = recovery.NewLogManager(&dm)
